@@ -130,7 +130,9 @@ def zero_block_context(case, r, block):
                 if bid is not None:
                     break
     if bid is None:
-        return ""
+        # a nameless remainder: only its place tells what it was
+        return return_site_of_call_into_returnless_function(
+            case, r, block, lst, set())
     blk = rwbase.find_block(case, bid)
     names = set(blk["labels"]) | {x.name for x in block.references}
     # (b) the data that followed the block was deleted in the same rewrite
@@ -180,14 +182,23 @@ def zero_block_context(case, r, block):
             return ""
     if had:
         return ":reason-removed-by-another-edit"
+    return return_site_of_call_into_returnless_function(
+        case, r, block, lst, names)
+
+
+def return_site_of_call_into_returnless_function(case, r, block, lst, names):
     # (c) the block was the return site of a call (return edges are incoming
     # control flow) whose callee lost its last return later in the rewrite
+    from .. import irbuild, irview
     try:
         lst.layout()
         labels = lst.label_positions()
         edges, _, instr_at = irbuild.expected_edges(lst, labels)
         here = {labels[n][1:] for n in names
                 if n in labels and labels[n][0] == "pos"}
+        p_ = irview.observe(r.bu, case["isa"]).blockpos(block)
+        if p_ is not None:
+            here.add(tuple(p_))
         rets = {t.fn for t in instr_at.values() if t.kind == "ret"}
         for (si, t, site, tgt) in irbuild.expected_edges.calls:
             if tgt[0] != "pos":
